@@ -147,6 +147,8 @@ func c06Contexts(e string) []string {
 		"contains(" + e + ", 'a')", "contains('a', " + e + ")", "startsWith(" + e + ", 'a')", "endsWith('a', " + e + ")",
 		"format('{0}', " + e + ")", "format(" + e + ", 'x')", "join(" + e + ", ',')", "join(" + e + ")", "toJSON(" + e + ")", "fromJSON(" + e + ")", "hashFiles(" + e + ")",
 		"github[" + e + "]", "env[" + e + "]", e + "[0]", e + ".*", "(" + e + ").y",
+		// narrowed operands (their own type is discarded, they are still checked)
+		e + " && 'a' || 'b'", "(" + e + " || 'a') && 'b'", "!(" + e + " && true) && 'y'",
 		// results of && / || are merged types: access after merging with a strict object / an array
 		"(" + e + " || " + root + ".obj).y", "(" + root + ".obj || " + e + ").y", "(" + e + " && " + root + ".obj).z", "(" + root + ".arr || " + e + ")[0]", "(" + e + " || " + root + ".obj).*",
 	}
@@ -161,7 +163,7 @@ func TestVerifC06(t *testing.T) {
 	}
 	r.Bounds["type_term_depth"] = depth
 	r.Bounds["accessor_chain_length"] = chainLen
-	r.Extra["rule"] = "accessor chains of length <= 3 over {.y, .z, .*, [0], ['y']} on <root>.x in 31 contexts x roots {matrix, steps, needs, inputs, secrets, jobs} typed {x: T} for every type term T up to the depth bound x every single loosening (sub-term -> any, strict -> open object); oracle: an expression without diagnostics under the original environment has none under the loosened one; end-to-end: 4 literal-vs-dynamic definition pairs x consumer expressions, and every include list of 1-3 elements over 4 element forms with one known element made unknown x 8 consumers, every row list of 1-3 elements over 5 element forms likewise x 9 consumers (+ a typed position), through Linter.Lint. class = message skeleton that disappears or stays; non-trivial = original environment reports something"
+	r.Extra["rule"] = "accessor chains of length <= 3 over {.y, .z, .*, [0], ['y']} on <root>.x in 34 contexts x roots {matrix, steps, needs, inputs, secrets, jobs} typed {x: T} for every type term T up to the depth bound x every single loosening (sub-term -> any, strict -> open object); oracle: an expression without diagnostics under the original environment has none under the loosened one; end-to-end: 4 literal-vs-dynamic definition pairs x consumer expressions, and every include list of 1-3 elements over 4 element forms with one known element made unknown x 8 consumers, every row list of 1-3 elements over 5 element forms likewise x 9 consumers (+ a typed position), through Linter.Lint. class = message skeleton that disappears or stays; non-trivial = original environment reports something"
 	r.Extra["assumptions"] = []string{"environments type one property x of one context at a time", "message identity is compared modulo quoted names and type renderings"}
 
 	if raw := vReplayInput(); raw != nil {
